@@ -98,6 +98,15 @@ func module(name, kind string, imps []string) string {
 			"    return tot%s(sa) + tot%s(sb) + tot%s(sc) + wh%s(na) + wh%s(nb)%s;\n}\n",
 			name, name, name, name, name, name, name, name, name, name, name, name, name, name,
 			fn, name, k, name, name, name, name, name, name, name, name, name, name, name, name, calls)
+	case "ifacelit":
+		// interface types written in place (literals): their ids come from the parser
+		fmt.Fprintf(&sb, "type Sq%s struct { .S: i32 };\ntype Rc%s struct { .W: i32, .H: i32 };\n"+
+			"fn (s: Sq%s) area() -> i32 { return s.S * s.S; }\nfn (r: Rc%s) area() -> i32 { return r.W * r.H; }\nfn (s: Sq%s) tag() -> i32 { return 1; }\n"+
+			"fn tot%s(x: interface { area() -> i32 }) -> i32 { return x.area(); }\nfn wh%s(x: interface { tag() -> i32 }) -> i32 { return x.tag(); }\n"+
+			"fn %s() -> i32 {\n    let va: Sq%s = { .S = %d };\n    let vb: Rc%s = { .W = 3, .H = 4 };\n"+
+			"    let sa: interface { area() -> i32 } = va;\n    let sb: interface { area() -> i32 } = vb;\n    let na: interface { tag() -> i32 } = va;\n"+
+			"    return tot%s(sa) + tot%s(sb) + wh%s(na)%s;\n}\n",
+			name, name, name, name, name, name, name, fn, name, k, name, name, name, name, calls)
 	case "synb":
 		fmt.Fprintf(&sb, "fn %s() -> i32 {\n    return %d +%s;\n    let q := ) 3;\n}\n", fn, k, calls) // syntax errors on lines after the imports
 	default:
@@ -132,7 +141,7 @@ func (p *pspec) project() *sched.Project {
 	return &sched.Project{ID: p.id, Files: files, Entry: "main.fer"}
 }
 
-var wellFormed = map[string]bool{"plain": true, "lit1": true, "lit2": true, "anon": true, "cap3": true, "rich": true, "iface": true}
+var wellFormed = map[string]bool{"plain": true, "lit1": true, "lit2": true, "anon": true, "cap3": true, "rich": true, "iface": true, "ifacelit": true}
 
 func mk(id string, quick bool, mods map[string]modspec) *pspec {
 	p := &pspec{id: id, mods: mods, quick: quick, ctl: true}
@@ -178,6 +187,8 @@ func projects() []*pspec {
 		p.one = true
 		ps = append(ps, p)
 	}
+	ps = append(ps, mk("fork(a=ifacelit,b=ifacelit)", true, map[string]modspec{"main": ms("plain", "a", "b"), "a": ms("ifacelit"), "b": ms("ifacelit")}))
+	ps = append(ps, mk("fork(main=ifacelit,a=ifacelit,b=iface)", true, map[string]modspec{"main": ms("ifacelit", "a", "b"), "a": ms("ifacelit"), "b": ms("iface")}))
 	ps = append(ps, mk("fork(a=iface,b=rich)", true, map[string]modspec{"main": ms("plain", "a", "b"), "a": ms("iface"), "b": ms("rich")}))
 	ps = append(ps, mk("fork(a=cap3,b=rich)", true, map[string]modspec{"main": ms("plain", "a", "b"), "a": ms("cap3"), "b": ms("rich")}))
 	// fork: main imports a and b
